@@ -1,3 +1,343 @@
-import GoStd.Bytes
+/-
+C10 — A UDP datagram is processed in isolation from every other datagram.
+
+"What the proxy relays for a UDP datagram is a function of that datagram's bytes alone: it never
+contains bytes of any datagram received earlier or later, whatever the arrival order, sizes,
+declared Content-Length, truncation or load. A datagram whose declared body length exceeds the
+bytes it actually carries, or that ends before its header section is complete, is discarded rather
+than completed from elsewhere."
+
+Model: Reader.Frame.udpParse (the parse step is built over the first `n` bytes of the pooled
+buffer, `n` = what ReadFromUDP returned), Sip.parseMessage, Side.Pool (byte_array_pool.go).
+Three parts:
+ * locality — the decoded message depends on `buf[0:n]` only (`C10_local`), so whatever an earlier
+   datagram left in a recycled buffer behind position `n` is invisible (`C10_stale_invisible`),
+   and everything decoded fits inside the datagram (`C10_within_datagram`);
+ * discard — over-declared Content-Length (`C10_overdeclared`) and header sections cut short
+   (`C10_truncated`, `C10_truncated_no_lf`, `C10_truncated_after_lines`) give `.error`/`none`:
+   nothing is taken "from elsewhere";
+ * the pool never hands a buffer that is still held to a second holder (`C10_pool_exclusive`).
+That the decoded message owns copies and not slices of the buffer is outside this model (it is
+checked by the dirty-vs-clean differential stream).
+-/
+import Reader.Frame
+import Side.Pool
+import Lemmas.Message
+open GoStd Sip Reader Lemmas
+
 namespace Props.C10
+
+/-! ### locality -/
+
+/-- The decoded message is a function of the first `n` bytes of the buffer alone. -/
+theorem C10_local (cm : List (Bytes × Bytes)) (buf buf' : Bytes) (n : Nat)
+    (h : buf.take n = buf'.take n) : udpParse cm buf n = udpParse cm buf' n := by
+  simp only [udpParse, h]
+
+/-- A recycled buffer: whatever earlier datagrams left behind the `d.length` bytes just received
+(`stale`, `stale'`) does not influence the result. -/
+theorem C10_stale_invisible (cm : List (Bytes × Bytes)) (d stale stale' : Bytes) :
+    udpParse cm (d ++ stale) d.length = udpParse cm (d ++ stale') d.length :=
+  C10_local cm _ _ _ (by simp)
+
+/-- … and it is what a fresh buffer holding exactly the datagram would give. -/
+theorem C10_stale_invisible_fresh (cm : List (Bytes × Bytes)) (d stale : Bytes) :
+    udpParse cm (d ++ stale) d.length = udpParse cm d d.length := by
+  have := C10_stale_invisible cm d stale []
+  simpa using this
+
+/-- Everything decoded fits inside the datagram: headers and body together are shorter than the
+`n` bytes received (nothing can have been completed from bytes behind position `n`). -/
+theorem C10_within_datagram (cm : List (Bytes × Bytes)) (buf : Bytes) (n : Nat) (m : Message)
+    (h : udpParse cm buf n = some m) : m.headers.length + m.body.length + 2 ≤ n := by
+  unfold udpParse at h
+  cases hp : parseMessage cm (buf.take n) with
+  | error => simp [hp] at h
+  | ok m' rest =>
+    simp only [hp, Option.some.injEq] at h
+    subst h
+    have := parseMessage_size cm _ m' rest hp
+    have hl : (buf.take n).length ≤ n := by simp [List.length_take]; omega
+    omega
+
+/-! ### discard -/
+
+/-- **Over-declared body.** The header section is complete (start line, header lines, blank line),
+the first Content-Length-class header declares `k`, but fewer than `k` bytes follow the blank
+line: the datagram is rejected. No bound on `k` (a `k` beyond int64 is rejected by Atoi). -/
+theorem C10_overdeclared (cm : List (Bytes × Bytes)) (eol start : Bytes)
+    (hs : List (Bytes × Bytes)) (heol : EolOK eol) (hst : StartOK start)
+    (hhs : ∀ h ∈ hs, HeaderOK h) (k : Nat)
+    (hcl : firstValue cm hs contentLengthName = some (natToBytes k))
+    (short : Bytes) (hshort : short.length < k) :
+    parseMessage cm (start ++ eol ++ renderHeaders eol hs ++ eol ++ short) = .error :=
+  parseMessage_overdeclared cm eol start hs heol hst hhs k hcl short hshort
+
+/-- the same through the UDP step, with stale bytes behind the datagram in the pooled buffer: the
+datagram is discarded (not completed from `stale`) -/
+theorem C10_overdeclared_udp (cm : List (Bytes × Bytes)) (eol start : Bytes)
+    (hs : List (Bytes × Bytes)) (heol : EolOK eol) (hst : StartOK start)
+    (hhs : ∀ h ∈ hs, HeaderOK h) (k : Nat)
+    (hcl : firstValue cm hs contentLengthName = some (natToBytes k))
+    (short : Bytes) (hshort : short.length < k) (stale : Bytes) :
+    udpParse cm ((start ++ eol ++ renderHeaders eol hs ++ eol ++ short) ++ stale)
+      (start ++ eol ++ renderHeaders eol hs ++ eol ++ short).length = none := by
+  have ht : ∀ D : Bytes, (D ++ stale).take D.length = D := fun D => by simp
+  unfold udpParse
+  rw [ht, C10_overdeclared cm eol start hs heol hst hhs k hcl short hshort]
+
+/-- **Truncated header section**, statement chosen: `d` is ANY strict truncation of a well-formed
+message's header section — the first `n` bytes of `render eol start hs body` with `n` smaller than
+the length of start line + header lines + blank line (so the cut may fall inside the start line,
+inside or between header lines, or inside the final CRLF). Every such datagram is rejected. Only
+the shape of start line and headers is assumed (no Content-Length condition, the start line need
+not even parse). -/
+theorem C10_truncated (cm : List (Bytes × Bytes)) (eol start : Bytes)
+    (hs : List (Bytes × Bytes)) (body : Bytes) (heol : EolOK eol) (hst : StartOK start)
+    (hhs : ∀ h ∈ hs, HeaderOK h) (n : Nat)
+    (hn : n < (start ++ eol ++ renderHeaders eol hs ++ eol).length) :
+    parseMessage cm ((render eol start hs body).take n) = .error :=
+  parseMessage_take_headers cm eol start hs body heol hst hhs n hn
+
+/-- … through the UDP step: a datagram of `n` bytes cut out of a longer message, whatever lies
+behind it in the buffer (here: the remainder of that very message), is discarded. -/
+theorem C10_truncated_udp (cm : List (Bytes × Bytes)) (eol start : Bytes)
+    (hs : List (Bytes × Bytes)) (body : Bytes) (heol : EolOK eol) (hst : StartOK start)
+    (hhs : ∀ h ∈ hs, HeaderOK h) (n : Nat)
+    (hn : n < (start ++ eol ++ renderHeaders eol hs ++ eol).length) :
+    udpParse cm (render eol start hs body) n = none := by
+  simp [udpParse, C10_truncated cm eol start hs body heol hst hhs n hn]
+
+/-- Truncation, second sufficient condition (no shape assumed at all): a datagram that contains no
+LF whatsoever is rejected. -/
+theorem C10_truncated_no_lf (cm : List (Bytes × Bytes)) (d : Bytes) (h : (10 : UInt8) ∉ d) :
+    parseMessage cm d = .error :=
+  parseMessage_no_lf cm d h
+
+/-- Truncation, third form: start line, any number of complete header lines, then an arbitrary
+LF-free fragment (not necessarily a prefix of a well-formed header line). -/
+theorem C10_truncated_after_lines (cm : List (Bytes × Bytes)) (eol start : Bytes)
+    (hs : List (Bytes × Bytes)) (heol : EolOK eol) (hst : StartOK start)
+    (hhs : ∀ h ∈ hs, HeaderOK h) (part : Bytes) (hpart : (10 : UInt8) ∉ part) :
+    parseMessage cm (start ++ eol ++ (renderHeaders eol hs ++ part)) = .error :=
+  parseMessage_truncated_headers cm eol start hs heol hst hhs part hpart
+
+/-! ### the buffer pool -/
+
+open Side.Pool
+
+/-- what the clients of the pool do -/
+inductive Op where
+  | alloc
+  | free (b : BufId)
+
+/-- pool state plus the buffers currently held by clients (receive loop, parse queue, parse loop) -/
+structure Sys where
+  st : St
+  held : List BufId
+
+/-- one operation; `none` = the history violates the client discipline (frees a buffer it does
+not hold) -/
+def step (s : Sys) : Op → Option Sys
+  | .alloc => some ⟨(alloc s.st).1, (alloc s.st).2 :: s.held⟩
+  | .free b => if b ∈ s.held then some ⟨free s.st b, s.held.erase b⟩ else none
+
+def run : Sys → List Op → Option Sys
+  | s, [] => some s
+  | s, op :: ops =>
+    match step s op with
+    | none => none
+    | some s' => run s' ops
+
+def init (cap : Nat) : Sys := ⟨⟨cap, [], 0⟩, []⟩
+
+structure Inv (s : Sys) : Prop where
+  pool_nodup : s.st.pool.Nodup
+  held_nodup : s.held.Nodup
+  disjoint : ∀ b ∈ s.st.pool, b ∉ s.held
+  below : ∀ b ∈ s.st.pool ++ s.held, b < s.st.fresh
+
+theorem inv_init (cap : Nat) : Inv (init cap) :=
+  ⟨by simp [init], by simp [init], by simp [init], by simp [init]⟩
+
+/-- `Alloc` returns a buffer nobody holds, and keeps the invariant -/
+theorem inv_alloc (s : Sys) (h : Inv s) :
+    (alloc s.st).2 ∉ s.held ∧ Inv ⟨(alloc s.st).1, (alloc s.st).2 :: s.held⟩ := by
+  obtain ⟨h1, h2, h3, h4⟩ := h
+  unfold alloc
+  cases hl : s.st.pool.getLast? with
+  | none =>
+    have hnot : s.st.fresh ∉ s.held := fun hm => by
+      exact Nat.lt_irrefl _ (h4 s.st.fresh (by simp [hm]))
+    refine ⟨hnot, ?_, ?_, ?_, ?_⟩
+    · exact h1
+    · exact List.nodup_cons.mpr ⟨hnot, h2⟩
+    · intro b hb
+      simp only [List.mem_cons, not_or]
+      exact ⟨Nat.ne_of_lt (h4 b (by simp [hb])), h3 b hb⟩
+    · intro b hb
+      simp only [List.mem_append, List.mem_cons] at hb
+      rcases hb with hb | rfl | hb
+      · exact Nat.lt_succ_of_lt (h4 b (by simp [hb]))
+      · exact Nat.lt_succ_self _
+      · exact Nat.lt_succ_of_lt (h4 b (by simp [hb]))
+  | some b =>
+    obtain ⟨ys, hys⟩ := List.getLast?_eq_some_iff.mp hl
+    have hnd := h1
+    rw [hys, List.nodup_append] at hnd
+    obtain ⟨hys_nd, _, hdisj⟩ := hnd
+    have hb_pool : b ∈ s.st.pool := by rw [hys]; simp
+    have hnot : b ∉ s.held := h3 b hb_pool
+    simp only [hys, List.dropLast_concat]
+    refine ⟨hnot, ?_, ?_, ?_, ?_⟩
+    · exact hys_nd
+    · exact List.nodup_cons.mpr ⟨hnot, h2⟩
+    · intro x hx
+      simp only [List.mem_cons, not_or]
+      refine ⟨hdisj x hx b (by simp), h3 x (by rw [hys]; simp [hx])⟩
+    · intro x hx
+      simp only [List.mem_append, List.mem_cons] at hx
+      rcases hx with hx | rfl | hx
+      · exact h4 x (by rw [hys]; simp [hx])
+      · exact h4 x (by simp [hb_pool])
+      · exact h4 x (by simp [hx])
+
+/-- `Free` of a held buffer keeps the invariant (whether the pool keeps or drops the buffer) -/
+theorem inv_free (s : Sys) (b : BufId) (h : Inv s) (hb : b ∈ s.held) :
+    Inv ⟨free s.st b, s.held.erase b⟩ := by
+  obtain ⟨h1, h2, h3, h4⟩ := h
+  have hbp : b ∉ s.st.pool := fun hm => h3 b hm hb
+  have herase : ∀ x, x ∈ s.held.erase b → x ≠ b ∧ x ∈ s.held := fun x hx =>
+    (List.Nodup.mem_erase_iff h2).mp hx
+  unfold free
+  simp only
+  split
+  · refine ⟨?_, h2.erase b, ?_, ?_⟩
+    · rw [List.nodup_append]
+      refine ⟨h1, by simp, ?_⟩
+      intro x hx y hy
+      simp only [List.mem_singleton] at hy
+      subst hy
+      exact fun e => hbp (e ▸ hx)
+    · intro x hx hxe
+      simp only [List.mem_append, List.mem_singleton] at hx
+      rcases hx with hx | rfl
+      · exact h3 x hx (herase x hxe).2
+      · exact (herase x hxe).1 rfl
+    · intro x hx
+      simp only [List.mem_append, List.mem_singleton] at hx
+      rcases hx with (hx | rfl) | hx
+      · exact h4 x (by simp [hx])
+      · exact h4 x (by simp [hb])
+      · exact h4 x (by simp [(herase x hx).2])
+  · refine ⟨h1, h2.erase b, ?_, ?_⟩
+    · intro x hx hxe
+      exact h3 x hx (herase x hxe).2
+    · intro x hx
+      simp only [List.mem_append] at hx
+      rcases hx with hx | hx
+      · exact h4 x (by simp [hx])
+      · exact h4 x (by simp [(herase x hx).2])
+
+theorem inv_step (s s' : Sys) (op : Op) (h : Inv s) (hs : step s op = some s') : Inv s' := by
+  cases op with
+  | alloc =>
+    simp only [step, Option.some.injEq] at hs
+    subst hs
+    exact (inv_alloc s h).2
+  | free b =>
+    simp only [step] at hs
+    split at hs
+    · rename_i hb
+      simp only [Option.some.injEq] at hs
+      subst hs
+      exact inv_free s b h hb
+    · cases hs
+
+/-- the invariant `pool.Nodup ∧ held.Nodup ∧ pool ∩ held = ∅ ∧ everything < fresh` is preserved
+by every history in which clients free only buffers they hold -/
+theorem C10_pool_invariant (s s' : Sys) (ops : List Op) (h : Inv s) (hr : run s ops = some s') :
+    Inv s' := by
+  induction ops generalizing s with
+  | nil =>
+    simp only [run, Option.some.injEq] at hr
+    exact hr ▸ h
+  | cons op ops ih =>
+    simp only [run] at hr
+    cases hst : step s op with
+    | none => simp [hst] at hr
+    | some s1 =>
+      simp only [hst] at hr
+      exact ih s1 (inv_step s s1 op h hst) hr
+
+/-- **The pool never hands one buffer to two holders**: after any disciplined history starting
+from the empty pool, `Alloc` returns a buffer that no client currently holds. -/
+theorem C10_pool_exclusive (cap : Nat) (ops : List Op) (s : Sys) (hr : run (init cap) ops = some s) :
+    (alloc s.st).2 ∉ s.held :=
+  (inv_alloc s (C10_pool_invariant _ s ops (inv_init cap) hr)).1
+
+/-- hence no buffer is ever held twice, and no held buffer sits in the pool -/
+theorem C10_pool_held_distinct (cap : Nat) (ops : List Op) (s : Sys)
+    (hr : run (init cap) ops = some s) : s.held.Nodup ∧ ∀ b ∈ s.st.pool, b ∉ s.held :=
+  let h := C10_pool_invariant _ s ops (inv_init cap) hr
+  ⟨h.held_nodup, h.disjoint⟩
+
+/-- The discipline matters: a double free puts the buffer in the pool while it is handed out again,
+and the next two `Alloc`s return the SAME buffer. -/
+example :
+    let s := free (free (alloc ⟨4, [], 0⟩).1 0) 0
+    (alloc s).2 = 0 ∧ (alloc (alloc s).1).2 = 0 := by decide
+
+/-! ### non-vacuity -/
+
+/-- a disciplined history with recycling in both orders -/
+example :
+    (run (init 2) [.alloc, .alloc, .free 0, .alloc, .free 1, .free 0, .alloc, .alloc]).map
+      (fun s => (s.held, s.st.pool, s.st.fresh)) = some ([1, 0], [], 2) := by decide
+
+example : run (init 2) [.alloc, .free 0, .free 0] = none := by decide
+
+example (cm : List (Bytes × Bytes)) : udpParse cm [1, 2, 3, 4] 2 = udpParse cm [1, 2, 9, 9, 9] 2 :=
+  C10_local cm _ _ _ (by decide)
+
+/-- the example datagram: `SIP/2.0 200 OK`, `Content-Length: 2`, body `hi` -/
+def exampleDatagram : Bytes :=
+  render [13, 10] [83, 73, 80, 47, 50, 46, 48, 32, 50, 48, 48, 32, 79, 75]
+    [(contentLengthName, [50])] [104, 105]
+
+/-- a well-formed datagram in a dirty buffer IS decoded (so `C10_within_datagram` is not vacuous),
+to exactly its own content, whatever the stale bytes are and whatever the compact table -/
+theorem example_decoded (cm : List (Bytes × Bytes)) (stale : Bytes) :
+    udpParse cm (exampleDatagram ++ stale) exampleDatagram.length
+      = some ⟨.status [83, 73, 80, 47, 50, 46, 48] 200 [79, 75],
+              [⟨contentLengthName, .raw [50]⟩], [104, 105]⟩ := by
+  have hp := parse_render cm _ _ _ _ _ (Or.inl rfl) (wf_example_status cm) []
+  rw [List.append_nil] at hp
+  rw [C10_stale_invisible_fresh, udpParse, List.take_length, exampleDatagram, hp]
+  rfl
+
+example (cm : List (Bytes × Bytes)) (stale : Bytes) : 1 + 2 + 2 ≤ exampleDatagram.length :=
+  C10_within_datagram cm _ _ _ (example_decoded cm stale)
+
+/-- over-declared: `Content-Length: 5`, two body bytes, any compact table -/
+example (cm : List (Bytes × Bytes)) :
+    parseMessage cm ([83, 73, 80, 47, 50, 46, 48, 32, 50, 48, 48, 32, 79, 75] ++ [13, 10]
+      ++ renderHeaders [13, 10] [(contentLengthName, [53])] ++ [13, 10] ++ [104, 105]) = .error :=
+  C10_overdeclared cm _ _ _ (Or.inl rfl) (wf_example_status cm).start_ok
+    (by
+      intro h hh
+      simp only [List.mem_singleton] at hh
+      subst hh
+      exact ⟨by decide +kernel, by decide +kernel, by decide +kernel, by decide, by decide, by decide⟩)
+    5 (by
+      have : natToBytes 5 = [53] := by decide
+      simp [firstValue, isSameHeader, equalFold, this]) _ (by decide)
+
+/-- truncated: the example message (34 bytes of header section) cut after 20 bytes -/
+example (cm : List (Bytes × Bytes)) :
+    parseMessage cm ((render [13, 10] [83, 73, 80, 47, 50, 46, 48, 32, 50, 48, 48, 32, 79, 75]
+      [(contentLengthName, [50])] [104, 105]).take 20) = .error :=
+  C10_truncated cm _ _ _ _ (Or.inl rfl) (wf_example_status cm).start_ok
+    (wf_example_status cm).headers_ok 20 (by simp [renderHeaders])
+
 end Props.C10
